@@ -75,6 +75,10 @@ type mxCase struct {
 	Vec    string `json:",omitempty"` // build: zero|ones|55|aa|count|bit|cw
 	Len    int    // encode: number of characters; build: index of the single set bit (Vec "bit") or of the single non-zero codeword (Vec "cw")
 	Pat    int    // encode: content pattern (0,1: fixed pseudo patterns; >=1000: sweep starting at unit Pat-1000)
+	// ECHint, when not empty, puts an ERROR_CORRECTION entry into the hints map handed to
+	// Encoder_encode ("L".."H" typed level, "sL".."sH" the string spelling): a map prepared for the
+	// writer and passed on. The level ARGUMENT decides; the matrix is the argument's symbol.
+	ECHint string `json:",omitempty"`
 }
 
 // alphanumeric character set in value order, written from table 5 of the standard
@@ -441,6 +445,16 @@ func hintsFor(c mxCase, fam int) map[gozxing.EncodeHintType]interface{} {
 	case famKanji:
 		h[gozxing.EncodeHintType_CHARACTER_SET] = "Shift_JIS"
 	}
+	if c.ECHint != "" {
+		name := c.ECHint[len(c.ECHint)-1:]
+		if li := levelIndex(name); li >= 0 {
+			if c.ECHint[0] == 's' {
+				h[gozxing.EncodeHintType_ERROR_CORRECTION] = name
+			} else {
+				h[gozxing.EncodeHintType_ERROR_CORRECTION] = levels[li].lib
+			}
+		}
+	}
 	return h
 }
 
@@ -458,6 +472,9 @@ func hashMatrix(m *encoder.ByteMatrix) uint64 {
 }
 
 func caseID(c mxCase) string {
+	if c.ECHint != "" {
+		return fmt.Sprintf("%s v%d-%s m%d %s%s len%d pat%d hint-ec=%s", c.Kind, c.V, c.Level, c.Mask, c.Family, c.Vec, c.Len, c.Pat, c.ECHint)
+	}
 	return fmt.Sprintf("%s v%d-%s m%d %s%s len%d pat%d", c.Kind, c.V, c.Level, c.Mask, c.Family, c.Vec, c.Len, c.Pat)
 }
 
